@@ -71,15 +71,16 @@ class EmcyConsumer:
                 if len(self.log) == prev_log_size:
                     # Resumed due to timeout
                     return None
-                # Get last logged EMCY
-                emcy = self.log[-1]
-                logger.info("Got %s", emcy)
                 if time.time() > end_time:
                     # No valid EMCY received on time
                     return None
-                if emcy_code is None or emcy.code == emcy_code:
-                    # This is the one we're interested in
-                    return emcy
+                # Look at all EMCYs logged since the last check, several
+                # may have arrived before this thread woke up
+                for emcy in self.log[prev_log_size:]:
+                    logger.info("Got %s", emcy)
+                    if emcy_code is None or emcy.code == emcy_code:
+                        # This is the one we're interested in
+                        return emcy
 
 
 class EmcyProducer:
